@@ -18,6 +18,10 @@ impl Prompt {
     }
 
     pub fn show(&mut self) -> Result<String, dialoguer::Error> {
+        #[cfg(p2sh_verif)]
+        if crate::verif::repl_scripted() {
+            return Ok(crate::verif::repl_read());
+        }
         let mut input_lines = Vec::new();
 
         loop {
